@@ -295,7 +295,7 @@ func c34Provider(rt *rapid.T, rec *evid.Rec, fatalf func(string, ...any)) {
 					trc2Start.Add(time.Duration(graceDays)*day + time.Hour), now0.Add(30*day - time.Hour), now0.Add(30*day + time.Hour), now0.Add(60*day + time.Hour)}
 				tg := targets[rapid.IntRange(0, len(targets)-1).Draw(rt, "target")]
 				if tg.After(time.Now()) {
-					d = time.Until(tg)
+					d = time.Until(tg) + 13*time.Second // never exactly on a validity boundary
 				}
 			}
 			time.Sleep(d)
